@@ -21,7 +21,8 @@ RULE = ('A real Client (AsyncClient) is connected to a real Server '
         'later emits; asyncio handlers alternate between plain and '
         'coroutine functions, and the packets in flight may be received '
         'back to back (one polling payload) before any background task '
-        'runs. Oracle: the peer handler for that event and '
+        'runs; calls whose answer stays in flight until they have timed '
+        'out (the late answer must reach nobody). Oracle: the peer handler for that event and '
         'namespace is invoked exactly once with args == the documented '
         'packing of the payload (type-strict), in send order per direction; '
         'callback args / call() result follow the same rule applied to the '
@@ -52,8 +53,10 @@ def strategy(tier):
         S.text_st(max_size=6)).filter(lambda n: n not in RESERVED)
     msg = st.fixed_dictionaries({
         'dir': st.sampled_from(['c2s', 's2c']),
+        # call_late: the answer to a call() stays in flight until the call
+        # has timed out; it arrives later and must not reach anybody else
         'kind': st.sampled_from(['emit', 'emit', 'emit_cb', 'send',
-                                 'send_cb', 'call']),
+                                 'send_cb', 'call', 'call', 'call_late']),
         'ns': st.integers(0, 3), 'event': name, 'data': pay, 'ret': pay,
         # the receiving handler raises after it was invoked (only for
         # messages without acknowledgement): what follows must still arrive
@@ -186,6 +189,23 @@ def _run(case, ln):
                 labels['handler_fault'] = True
             rets.setdefault((d, ns, ev), []).append(ret)
             exp.append((ns, ev, pack_args(data)))
+            if kind == 'call_late':
+                kw_l = {'namespace': ns, 'timeout': 1}
+                api = csio if d == 'c2s' else ssio
+                if d == 's2c':
+                    kw_l['to'] = sids[ns]
+                lim = {'max_s2c': 0} if d == 'c2s' else {'max_c2s': 0}
+                try:
+                    r = ln.run_client(lambda: api.call(ev, data, **kw_l),
+                                      **lim)
+                except Exception as e:
+                    if type(e).__name__ != 'TimeoutError':
+                        raise
+                else:
+                    raise Violation('call-returned-without-answer',
+                                    '%s %r on %s: %r' % (d, ev, ns, r))
+                labels['call_timed_out_answer_late'] = True
+                continue
             if _interesting(data) or (kind in ('emit_cb', 'send_cb', 'call')
                                       and _interesting(ret)):
                 n_int += 1
